@@ -26,7 +26,7 @@ add("C11", "exploration",
 
 
 add("C04", "exploration",
-    "Generated-input search over geometry models (7 types x 4 coordinate types, empties at every position, nesting depth 4, zero values, all float64 classes incl. NaN/Inf in Z/M) x per-element byte order x trailing bytes. Oracles: an independent WKB writer/reader written from the ISO spec and bit-wise structural comparison of model trees; library decode must invert library encode and the independent mixed-endian encoding, re-encode must reproduce bytes, decoded values must own their data (the input buffer is overwritten afterwards, at several alignments), Append works into destinations with spare capacity and twice in a row, the []byte returned by Value() is not reused, a copy held of a Scan destination survives the next Scan, Value/Scan of Geometry, NullGeometry and all 7 concrete types (destinations pre-populated with another value) must round trip and reject other types.",
+    "Generated-input search over geometry models (7 types x 4 coordinate types, empties at every position, nesting depth 4, zero values, all float64 classes incl. NaN/Inf in Z/M) x per-element byte order x trailing bytes. Oracles: an independent WKB writer/reader written from the ISO spec and bit-wise structural comparison of model trees; library decode must invert library encode and the independent mixed-endian encoding, re-encode must reproduce bytes, decoded values must own their data (the input buffer is overwritten afterwards, at several alignments), Append works into destinations with spare capacity and twice in a row, the []byte returned by Value() is not reused, a copy held of a Scan destination survives the next Scan, a NULL row leaves nothing of the previous row in a NullGeometry, validity does not depend on Z/M, enumerated collections of 100..1000 members and polygons of 255..1000 rings decode, Value/Scan of Geometry, NullGeometry and all 7 concrete types (destinations pre-populated with another value) must round trip and reject other types.",
     "Trusted: independent codec (internal/codec/wkb.go), gm model conversion (read-back checked per case), rapid. Scan paths are exercised only on cases the library validates (valid-by-construction family, about 80% of cases).",
     "property-based testing (rapid): round-trip + differential against an independent codec",
     "DESIGN.md C04")
@@ -69,7 +69,7 @@ add("C03", "exploration",
 
 
 add("C01", "exploration",
-    "Generated ordered pairs of valid geometries (all 7x7 type pairs, overlapping collection members, empties) on triangulated integer grids that coincide, are offset by half a cell or shifted, under an injective integer map (optionally an exact dyadic affine image), a hole-nesting family, and a general-position float family (random 53-bit mantissas in a window: crossing points are not representable, the library must round its nodes), and a concurrent family (3..14 integer segments through one non-lattice point); repeated consecutive vertices; every operation repeated on the same operands carrying Z/M/ZM payload. An exact rational arrangement of both operands gives, for every vertex, sub-edge and slab trapezoid, its membership in A and B; the expected result of each operation is the closed Boolean combination of those cells with its exact area, remainder length and isolated-point count. Every library result (Union, Intersection, Difference both orders, SymmetricDifference, argument orders swapped, UnaryUnion, Union(x,x), UnionMany) must be error-free, valid (oracle and Validate), contain exactly the expected face probes, have every expected remainder edge/point within tau, match the three measures and have the canonical shape. Because every operation is compared with the same exact point set, the Boolean-algebra laws hold as a consequence.",
+    "Generated ordered pairs of valid geometries (all 7x7 type pairs, overlapping collection members, empties) on triangulated integer grids that coincide, are offset by half a cell or shifted, under an injective integer map (optionally an exact dyadic affine image), a hole-nesting family, and a general-position float family (random 53-bit mantissas in a window: crossing points are not representable, the library must round its nodes), and a concurrent family (3..14 integer segments through one non-lattice point); repeated consecutive vertices; every operation repeated on the same operands carrying Z/M/ZM payload; UnionMany lists of up to 50 operands. An exact rational arrangement of both operands gives, for every vertex, sub-edge and slab trapezoid, its membership in A and B; the expected result of each operation is the closed Boolean combination of those cells with its exact area, remainder length and isolated-point count. Every library result (Union, Intersection, Difference both orders, SymmetricDifference, argument orders swapped, UnaryUnion, Union(x,x), UnionMany) must be error-free, valid (oracle and Validate), contain exactly the expected face probes, have every expected remainder edge/point within tau, match the three measures and have the canonical shape. Because every operation is compared with the same exact point set, the Boolean-algebra laws hold as a consequence.",
     "Trusted: exact kernel (internal/exact). Strict domain (exact clearance >= 1e-6 x magnitude) only; probes closer than tau = 1e-9 x magnitude to an arrangement edge are skipped and counted.",
     "property-based testing (rapid) vs an exact-arithmetic arrangement oracle",
     "DESIGN.md C01")
@@ -91,7 +91,7 @@ add("C10", "exploration",
     "property-based testing (rapid): generated API programs, repetition, differential process, race detector",
     "DESIGN.md C10")
 add("C12", "exploration",
-    "Envelope algebra over the integer lattice {-2..2}^2 incl. degenerate and empty envelopes: all ordered pairs enumerated (both tiers), all triples in thorough, every method against integer interval arithmetic; a float family (triples over per-case pools of non-dyadic, 1e15+fraction, 1e-300/subnormal, 1e300 and signed-zero ordinates with derived touching/nested boxes: predicates, joins and Contains compared exactly incl. one-ulp neighbours, Width/Height/Center/Area/Distance with the correctly rounded exact rational value); and generated geometries of every type/coordinate type: Envelope() is exactly the min/max of the control points (Geometry, concrete type, Sequence), empty iff the geometry is, invariant under Reverse/Force*/member rotation, join of members, Envelope(Union) = join within 1e-9.",
+    "Envelope algebra over the integer lattice {-2..2}^2 incl. degenerate and empty envelopes: all ordered pairs enumerated (both tiers), all triples in thorough, every method against integer interval arithmetic; a float family (triples over per-case pools of non-dyadic, 1e15+fraction, 1e-300/subnormal, 1e300 and signed-zero ordinates with derived touching/nested boxes: predicates, joins and Contains compared exactly incl. one-ulp neighbours, Width/Height/Center/Area/Distance with the correctly rounded exact rational value); and generated geometries of every type/coordinate type: Envelope() is exactly the min/max of the control points (Geometry, concrete type, Sequence), empty iff the geometry is, invariant under Reverse/Force*/member rotation, join of members, Envelope(Union) = join within 1e-9, also for UnionMany over 129..350 operands.",
     "Trusted: integer interval arithmetic in props/c12_test.go, math/big for the float family (Distance is compared only while the squared gaps neither overflow nor underflow).",
     "exhaustive enumeration of a finite lattice + property-based testing (rapid)",
     "DESIGN.md C12")
@@ -101,7 +101,7 @@ add("C13", "exploration",
     "property-based testing (rapid) + exhaustive small-space enumeration vs an exact characterisation",
     "DESIGN.md C13")
 add("C14", "exploration",
-    "Valid geometries of every type (triangulated-grid shapes and comb / side-by-side-hole shapes; lattice and exact dyadic float images): Area vs the exact sum of slab trapezoids (cross-checked with the exact shoelace value), signed area after ForceCCW/ForceCW/Reverse, Area(WithTransform f) = TransformXY(f).Area() = area x |det f|, SignedArea and WithTransform together in both argument orders = signed area x det f, Length and length-weighted centroid at 200 bits, exact area-weighted centroid / point average, on Geometry and the concrete types; invariance under ring rotation, reversal, member permutation, Z/M; translation; additivity.",
+    "Valid geometries of every type (triangulated-grid shapes and comb / side-by-side-hole shapes; lattice and exact dyadic float images): Area vs the exact sum of slab trapezoids (cross-checked with the exact shoelace value), signed area after ForceCCW/ForceCW/Reverse, Area(WithTransform f) = TransformXY(f).Area() = area x |det f|, SignedArea and WithTransform together in both argument orders = signed area x det f, Length homogeneous under exact scalings by 2^-600 and 2^+520, Length and length-weighted centroid at 200 bits, exact area-weighted centroid / point average, on Geometry and the concrete types; invariance under ring rotation, reversal, member permutation, Z/M; translation; additivity.",
     "Trusted: exact kernel. Tolerance 1e-9 x magnitude (squared for area).",
     "property-based testing (rapid) vs exact-arithmetic measures + metamorphic relations",
     "DESIGN.md C14")
@@ -111,7 +111,7 @@ add("C15", "exploration",
     "property-based testing (rapid) vs the exact OGC point locator",
     "DESIGN.md C15")
 add("C16", "exploration",
-    "Geometries of 7 types x 4 coordinate types with unique per-vertex Z/M tags (empties, nesting, zero values): a recursive walker asserts one CoordinatesType() for the geometry and everything reachable after construction and after every operation; mixed-type constructors reduce to the common subset; Z/M fields a coordinate type does not have read zero; Slice views never write to their parent sequence; ring closing positions may carry Z/M of their own; ForceCoordinatesType/Force2D equal the harness model exactly; Reverse/ForceCW/ForceCCW/AsMulti*/Dump keep the multiset of full positions and every line/ring as it was or exactly reversed; set operations with an empty operand in either position return XY; DumpCoordinates order; TransformXY/SnapToGrid touch XY only; Densify keeps tagged originals and interpolates Z/M; Simplify emits only tagged originals; WKB/WKT round trips; XY-only operations return XY throughout.",
+    "Geometries of 7 types x 4 coordinate types with unique per-vertex Z/M tags (empties, nesting, zero values): a recursive walker asserts one CoordinatesType() for the geometry and everything reachable after construction and after every operation; mixed-type constructors reduce to the common subset; Z/M fields a coordinate type does not have read zero; Slice views never write to their parent sequence; the flat-coordinate constructors build the same geometries; the Multi*/collection constructors leave the caller's slice alone; NewPolygon reduces rings of different types; ring closing positions may carry Z/M of their own; ForceCoordinatesType/Force2D equal the harness model exactly; Reverse/ForceCW/ForceCCW/AsMulti*/Dump keep the multiset of full positions and every line/ring as it was or exactly reversed; set operations with an empty operand in either position return XY; DumpCoordinates order; TransformXY/SnapToGrid touch XY only; Densify keeps tagged originals and interpolates Z/M; Simplify emits only tagged originals; WKB/WKT round trips; XY-only operations return XY throughout.",
     "Trusted: gm model conversion (read-back checked).",
     "property-based testing (rapid): tagged-vertex tracking against a harness model",
     "DESIGN.md C16")
